@@ -34,6 +34,7 @@ def run(ctx):
     ctx.step(value, ctx)
     ctx.step(source, ctx)
     ctx.step(copies, ctx)
+    ctx.step(node_handles, ctx)
     ctx.step(addtype, ctx)
     ctx.step(byref, ctx)
     ctx.step(pair, ctx)
@@ -126,6 +127,30 @@ def copies(ctx):
             ctx.ob(rid, ok, f.loc(st), "%s copies the stored shared_ptr under mapLock" % top.name,
                    "" if ok else "the copy is made after mapLock was released (source: %s): a concurrent removeObject can destroy the "
                    "map node, and with it the shared_ptr being copied, in between" % (path(f, a) or a["k"]), fn=f.label, inst=f.qname)
+
+
+def node_handles(ctx, rid="C17.extract"):
+    """an entry that is taken out of a map with extract() lives only in the node handle: inserting the handle can FAIL
+    (the key is taken), and a failed insert hands the node back in insert_return_type::node - if that is dropped, the
+    stored object and its name are gone although the operation reports failure"""
+    ctx.rule(rid, "a node extracted from objectMap / typeMap is not lost when its re-insertion is refused", floor=0)
+    for f in ctx.fb.functions(rec=CLS):
+        ex = [st for st in _map_calls(f, "objectMap") if (st.get("callee") or {}).get("name") == "extract"] + \
+             [st for st in _map_calls(f, "typeMap") if (st.get("callee") or {}).get("name") == "extract"]
+        if not ex:
+            continue
+        ins = [st for st in list(_map_calls(f, "objectMap")) + list(_map_calls(f, "typeMap"))
+               if (st.get("callee") or {}).get("name") == "insert" and "node_handle" in " ".join((st.get("callee") or {}).get("params", []))
+               or ((st.get("callee") or {}).get("name") == "insert" and "insert_return_type" in st.get("t", "") + (st.get("callee") or {}).get("ret", ""))]
+        tested = [st for st in f.stmts.values() if st["k"] == "MemberExpr" and st["m"].get("name") == "inserted"]
+        handed_back = [st for st in f.stmts.values() if st["k"] == "MemberExpr" and st["m"].get("name") == "node"]
+        prechecked = [st for st in list(_map_calls(f, "objectMap")) if (st.get("callee") or {}).get("name") in ("find", "count", "contains")
+                      and f.pos_of(st) and f.pos_of(ex[0]) and f.dominates(tuple(f.pos_of(st)), tuple(f.pos_of(ex[0])))]
+        ok = bool(handed_back) or bool(prechecked) or not (ins or tested)
+        ctx.ob(rid, ok, f.loc(ex[0]), "%s cannot lose the entry it extracted" % f.name, "" if ok else
+               "the node extracted here is re-inserted with insert(node_handle); when the key is already present the insertion is "
+               "refused and the node (the stored object and its name) dies with the returned insert_return_type - the function "
+               "neither checks the new key before extracting nor takes the node back from .node", fn=f.label, inst=f.qname)
 
 
 def byref(ctx):
